@@ -54,6 +54,7 @@ func checkC13(c *core.Ctx) error {
 	checkMgamma(c)
 	checkPolygammaSeries(c)
 	checkRangeGuards(c)
+	checkParityTests(c)
 	return nil
 }
 
